@@ -87,6 +87,7 @@ type Verifier struct {
 	typeTags   map[string]int
 	tagTypes   map[int]types.Type
 	tableRaw    map[string]json.RawMessage
+	strConsts   map[string]int
 	usedTrusted map[string]bool
 	usedAuto    map[string]bool
 }
@@ -352,10 +353,18 @@ func (fx *FnCtx) mergeStates(edges []*Edge) *State {
 			a, okA := out.Heaps[k]
 			b, okB := e.st.Heaps[k]
 			if !okA {
-				a = fx.initialHeap(k, hi.Sort, hi.Leaf)
+				if k[0] == 'M' {
+					a = fx.mapHeap(out, k)
+				} else {
+					a = fx.initialHeap(k, hi.Sort, hi.Leaf)
+				}
 			}
 			if !okB {
-				b = fx.initialHeap(k, hi.Sort, hi.Leaf)
+				if k[0] == 'M' {
+					b = fx.mapHeap(e.st, k)
+				} else {
+					b = fx.initialHeap(k, hi.Sort, hi.Leaf)
+				}
 			}
 			if a != b {
 				out.Heaps[k] = Ite(c, b, a)
@@ -562,7 +571,8 @@ func (fx *FnCtx) execBlock(b *ssa.BasicBlock, incoming []*Edge, rets *[]retInfo)
 		case *ssa.Jump:
 			return []*Edge{{from: b, to: b.Succs[0], st: st, reach: reach}}
 		case *ssa.Return:
-			fx.runDefers(st, reach)
+			// deferred calls have already been run by the RunDefers instruction that go/ssa places
+			// before every return of a function with defers
 			var vs []Value
 			for _, r := range t.Results {
 				vs = append(vs, fx.val(r))
@@ -623,7 +633,7 @@ func (fx *FnCtx) handleLoop(li *loopInfo, incoming []*Edge, rets *[]retInfo) []*
 		// bounded instance search: explore executions with at most K iterations of this loop
 		return fx.unrollLoop(li, &LoopSpec{Unroll: fx.root.boundedK, Bounded: true}, incoming, rets)
 	}
-	if spec == nil || len(spec.Invariants) == 0 {
+	if spec == nil || (len(spec.Invariants) == 0 && len(spec.Assumes) == 0) {
 		if k, ok := constTripCount(li); ok && k <= 16 {
 			return fx.unrollLoop(li, &LoopSpec{Unroll: k}, incoming, rets)
 		}
@@ -735,6 +745,10 @@ func (fx *FnCtx) handleLoop(li *loopInfo, incoming []*Edge, rets *[]retInfo) []*
 	for _, c := range spec.Invariants {
 		fx.assumeTagged(Implies(reachE, fx.evalBool(envH, c.Expr)), "inv:"+c.Label)
 	}
+	for _, c := range spec.Assumes {
+		fx.assumeTagged(Implies(reachE, fx.evalBool(envH, c.Expr)), "inv:shape-assumed")
+		fx.root.noteOnce("assumed at the head of loop " + fmt.Sprint(li.ord) + " (not proved): " + c.Src)
+	}
 	var d0 *Term
 	if spec.Decreases != nil {
 		d0 = fx.evalInt(envH, spec.Decreases.Expr)
@@ -787,7 +801,7 @@ func (fx *FnCtx) validRefs(v Value, st *State, pc *Term) {
 	tc := fx.tc
 	if v.P != nil {
 		if v.P.Kind == PObj {
-			fx.assume(Implies(pc, tc.IdxLt(v.P.Ref, st.NAlloc)))
+			fx.assume(Implies(pc, tc.validRef(v.P.Ref, st.NAlloc)))
 		}
 		return
 	}
@@ -800,8 +814,10 @@ func (fx *FnCtx) validRefs(v Value, st *State, pc *Term) {
 			continue
 		}
 		switch lf.Kind {
-		case "id", "ref":
+		case "id":
 			fx.assume(Implies(pc, tc.IdxLt(v.L[i], st.NAlloc)))
+		case "ref":
+			fx.assume(Implies(pc, tc.validRef(v.L[i], st.NAlloc)))
 		}
 	}
 	fx.sliceShape(v, v.T, 0, pc)
